@@ -130,7 +130,11 @@ def generate_cases(ctx, n, check_paths=True):
     exts = [".records", ".records.gz", ".records.bz2", ".records.lz4", ".records.zst"]
     for i in range(n):
         g = recgen.Gen(rnd, legacy=(i % 6 == 0))
-        items = g.items(rnd.choice([1, 1, 2, 3, 4]))
+        try:
+            items = g.items(rnd.choice([1, 1, 2, 3, 4]))
+        except recgen.DescriptorMismatch as e:
+            out.append(dict(index=i, items=[], obs=[], error="DescriptorMismatch: %s" % e))
+            continue
         try:
             obs = [recgen.obs_item(x) for x in items]
         except recgen.Unobservable as e:
@@ -255,6 +259,12 @@ def run(ctx):
     if check_property(ctx, cases):
         return
     replay_findings(ctx)
+    # descriptor-registry histories (same-name / identifier-coincident / nested / grouped descriptors on 1-3 writers): a record
+    # decoded with another descriptor is a round-trip failure too
+    from vf.props import c03
+    _, _, found = c03.explore(ctx, report=True)
+    if found:
+        return
     # model = implementation, inside Coq
     terms = [sc.render_case(cs["obs"], cs["data"], cs["rbo"]) for cs in cases]
     shard = max(1, (len(terms) + 15) // 16)
